@@ -156,7 +156,7 @@ func describeKey(k string) (Result, *scaleObs, map[string]any) {
 
 func checkC13(c C13Case) *Violation {
 	k := c.Key
-	if c.Layer == "list" || c.Layer == "walk" {
+	if c.Layer == "list" || c.Layer == "walk" || c.Layer == "textwalk" {
 		k = "C"
 	}
 	key := theory.ParseKey(k)
@@ -197,6 +197,53 @@ func checkC13(c C13Case) *Violation {
 		}
 		if v := checkKeyWritten(k, key, mustAccept, mustReject); v != nil {
 			return v
+		}
+	case "textwalk":
+		// the same walk written as chord text: each chord carries {key=K} together with another setting
+		keys := strings.Fields(c.Key)
+		var tx strings.Builder
+		for i, kk := range keys {
+			other := []string{"mtr=3/4", "bpm=90", "vel=f", "mtr=4/4", "txt=x"}[i%5]
+			if i%2 == 0 {
+				tx.WriteString(fmt.Sprintf("1[1]{key=%s,%s} ", kk, other))
+			} else {
+				tx.WriteString(fmt.Sprintf("1[1]{%s,key=%s} ", other, kk))
+			}
+		}
+		conv := crd(tx.String(), "text", "conv", "degree")
+		if v := cleanOutcome(conv); v != nil {
+			return v
+		}
+		if conv.Exit != 0 {
+			return vio("listed-key-not-written", "`crd text conv degree` refuses %q: %s", tx.String(), firstLines(conv.Stderr, 2))
+		}
+		wr := Run{Argv: []string{"write"}, Stdin: string(conv.Stdout)}.Exec()
+		if v := cleanOutcome(wr); v != nil {
+			return v
+		}
+		if wr.Exit != 0 {
+			return vio("listed-key-not-written", "`crd write` refuses the conversion of %q: %s", tx.String(), firstLines(wr.Stderr, 2))
+		}
+		_, song, err := decode(wr.Stdout)
+		if err != nil || len(song.Tracks) == 0 {
+			return vio("not-smf", "text walk through %v: %v", keys, err)
+		}
+		var got, want []string
+		for _, e := range song.Tracks[0] {
+			if e.IsMeta(0x59) && len(e.Data) == 2 {
+				got = append(got, fmt.Sprintf("%d:sf=%d,mi=%d", e.Tick/960, int8(e.Data[0]), e.Data[1]))
+			}
+		}
+		for i, kk := range keys {
+			tk := theory.ParseKey(kk)
+			mi := 0
+			if tk.Minor {
+				mi = 1
+			}
+			want = append(want, fmt.Sprintf("%d:sf=%d,mi=%d", i, tk.Sig(), mi))
+		}
+		if strings.Join(got, " ") != strings.Join(want, " ") {
+			return vio("written-signature", "the text %q states the signatures (beat:sf,mi)\n%v\nthe keys have\n%v", tx.String(), got, want)
 		}
 	case "walk":
 		// one piece that visits the keys in the order given (c.Key holds them, blank-separated): every visit states its
@@ -343,6 +390,11 @@ func TestC13(t *testing.T) {
 			r.CaseBC(true, "layer:walk")
 			r.Check(t, checkC13(c), "c13", c)
 		}
+		if myShare(wi+9) && wi < 2 {
+			c := C13Case{Key: w, Layer: "textwalk"}
+			r.CaseBC(true, "layer:textwalk")
+			r.Check(t, checkC13(c), "c13", c)
+		}
 	}
 	if shardIndex() == 0 {
 		c := C13Case{Layer: "list"}
@@ -355,7 +407,15 @@ func TestC13(t *testing.T) {
 // checkKeyWritten: the same key on the way into a file. `crd write --key K` states the key's signature (sf = sharps,
 // or minus flats; mi = mode) for a supported key and refuses a spelling that would need more than seven accidentals.
 func checkKeyWritten(k string, key theory.Key, mustAccept, mustReject bool) *Violation {
-	wr := Run{Argv: []string{"write", "--key", k}, Stdin: oneChordDoc("")}.Exec()
+	if v := checkKeyWrittenOn(k, key, mustAccept, mustReject, oneChordDoc("")); v != nil {
+		return v
+	}
+	// the same with a pickup: the piece opens with a rest
+	return checkKeyWrittenOn(k, key, mustAccept, mustReject, "- values: [\"1/2\"]\n"+oneChordDoc(""))
+}
+
+func checkKeyWrittenOn(k string, key theory.Key, mustAccept, mustReject bool, doc string) *Violation {
+	wr := Run{Argv: []string{"write", "--key", k}, Stdin: doc}.Exec()
 	if v := cleanOutcome(wr); v != nil {
 		return v
 	}
